@@ -77,6 +77,9 @@ def scenarios(prop, tier, seed=0):
         # a sync caller blocks on the queue and only then is the future woken: the caller must take the queue over itself
         L.append(S('c04_p1_fut_sync_busy_pool_seq', [T('A', ('future_desync', 0, {'fut': ('gate', 0), 'as': 'f'}), ('detach', 'f'), ('desync', 1, {'acts': ['enter', ('gate', 1), 'exit']})), T('B', ('sync', 0)), T('W', ('open_gate', 0))],
                    pool_max=1, queues=2, seq='A P0 A P0 B W B', B=20, oracles=BASE + ('results', 'deadlock'), witness='callers_done'))
+        # two callers blocked in the background-wait path at once, no pool: when the first finishes, the second must be told to take the queue over
+        L.append(S('c04_p0_three_syncs_seq', [T('A', ('sync', 0)), T('B', ('sync', 0)), T('C', ('sync', 0))], pool_max=0, seq='A B C A B C', B=26,
+                   oracles=BASE + ('results', 'deadlock')))
         if not q: L.append(S('c04_p1_fut_sync_busy_pool', [T('A', ('future_desync', 0, {'fut': ('gate', 0), 'as': 'f'}), ('detach', 'f'), ('desync', 1, {'acts': ['enter', ('gate', 1), 'exit']})), T('B', ('sync', 0)), T('W', ('open_gate', 0))],
                    pool_max=1, queues=2, R=3, B=16, oracles=BASE + ('results', 'deadlock')))
         if not q:
@@ -116,6 +119,9 @@ def scenarios(prop, tier, seed=0):
     elif prop == 'C17':
         L.append(S('c17_p1_two_spawners', [T('A', ('desync', 0)), T('B', ('desync', 1))], pool_max=1, pool_slots=2, queues=2, R=3, B=14,
                    oracles=BASE + ('pool_max',)))
+        # two scheduling calls race through 'no dormant thread, below the maximum, spawn one' (targeted slot sequence: cheap)
+        L.append(S('c17_p1_two_spawners_seq', [T('A', ('desync', 0)), T('B', ('desync', 1))], pool_max=1, pool_slots=2, queues=2, seq='A B A B P0 P1 A B P0 P1', B=14,
+                   oracles=BASE + ('pool_max', 'quiescent_complete')))
         L.append(S('c17_p0_no_threads', [T('A', ('desync', 0)), T('B', ('sync', 0))], pool_max=0, pool_slots=1, R=2, B=16,
                    oracles=BASE + ('pool_max', 'deadlock')))
         # lower the maximum below the number of live threads, then despawn: must return with the pool at the new maximum
@@ -253,6 +259,9 @@ def scenarios(prop, tier, seed=0):
         # the input yields one item and then stays silent; the caller drops its own reference and then the output stream
         L.append(S('c16_p1_drop_output', [T('A', ('p_new', 'x'), ('pipe', 'x', {'gates': [99], 'ends': False, 'as': 'ps'}), ('p_drop', 'x'), ('s_drop', 'ps'))],
                    pool_max=1, queues=0, R=2, B=40, oracles=OR16))
+        # the output is dropped while a second poll job (woken by item 0 arriving) is in the middle of its loop; the input then stays silent (gate 5 is never opened)
+        L.append(S('c16_p1_drop_midloop', [T('A', ('p_new', 'x'), ('pipe', 'x', {'gates': [0, 5], 'ends': False, 'as': 'ps'}), ('s_drop', 'ps'), ('p_drop', 'x')), T('W', ('open_gate', 0))],
+                   pool_max=1, queues=0, seq='A P0 A W P0 A P0', B=44, oracles=OR16))
     return L
 
 def bounds_text(prop, tier):
